@@ -728,6 +728,9 @@ def handler_prog(rng):
     else:
         L.append("csrrs %s, %s, %s" % (rd, csr, src))          # does not install: only csrrw/csrrwi write the vector
     L += ["csrrsi zero, ustatus, 1", "li a7, 10", "ecall", "%s:" % h]
+    if rng.random() < 0.12:
+        # the handler's label is the last thing of the program, or only data follows it: there is no handler code at all
+        return "\n".join(L + rng.choice([[], [".data", "hv: .word 1"], [".data"], ["hx:"]])) + "\n"
     L += ["csrrw t0, uscratch, t0", "sw t1, 0(t0)", "addi t1, t1, 1", "lw t1, 0(t0)", "csrrw t0, uscratch, t0"][:rng.randrange(0, 6)]
     L.append(rng.choice(["uret", "uret", "ret", "j %s" % h]))
     return "\n".join(L) + "\n"
@@ -1004,4 +1007,24 @@ def noreturn_prog(rng):
     L += ["li a7, 1", "ecall", "li a7, 10", "ecall", "fail:"]
     L += rng.choice([["li a0, 1", "li a7, 93", "ecall"], ["li a7, 10", "ecall"], ["spin:", "j spin"], ["li a0, 2", "li a7, 93", "ecall", "j fail"],
                      ["addi sp, sp, -16", "sw ra, 12(sp)", "li a7, 10", "ecall"]])
+    return "\n".join(L) + "\n"
+
+
+def diamond_chain(rng, n=None):
+    """a function in which a saved register is clobbered (or a temporary is used after a call) in front of a long chain
+    of if/else blocks with arms of equal length: the number of PATHS is 2^n, the analyses must not enumerate them"""
+    n = n if n is not None else rng.randrange(22, 30)
+    kind = rng.choice(["overwrite", "overwrite", "use-after-call", "clean"])
+    L = ["main:", "li a0, 3", "jal work", "li a7, 1", "ecall", "li a7, 10", "ecall", "work:"]
+    if kind == "overwrite":
+        L += ["li s0, 7", "add a0, a0, s0"]
+    elif kind == "use-after-call":
+        L += ["addi sp, sp, -16", "sw ra, 12(sp)", "li t3, 5", "jal leaf"]
+    for i in range(n):
+        L += ["beqz a0, dc_else%d" % i, "addi a0, a0, 1", "j dc_join%d" % i, "dc_else%d:" % i, "addi a0, a0, 2", "addi a0, a0, 3", "dc_join%d:" % i]
+    if kind == "use-after-call":
+        L += ["add a0, a0, t3", "lw ra, 12(sp)", "addi sp, sp, 16"]
+    L += ["ret"]
+    if kind == "use-after-call":
+        L += ["leaf:", "addi a0, a0, 1", "ret"]
     return "\n".join(L) + "\n"
